@@ -157,6 +157,9 @@ type Font struct {
 	FDSelect    []int // per glyph (CID only)
 	FDSelect3   bool  // use FDSelect format 3
 	WideIndex   bool  // use 4-byte offsets in the subroutine INDEXes
+	HdrSize     int   // header size (0 = 4); bytes beyond the fourth are padding
+	HdrOffSize  int   // the offSize field of the header (0 = 4); any of 1..4 is legal
+	TopPerm     int   // order of the Top DICT operators (ROS stays first, TN5176 section 18)
 }
 
 func (f *FD) private(subrsOff int) []byte {
@@ -184,7 +187,17 @@ func Assemble(f *Font) []byte {
 	if f.WideIndex {
 		offSize = 4
 	}
-	header := []byte{1, 0, 4, 4}
+	hdrSize, hdrOff := 4, 4
+	if f.HdrSize > 4 {
+		hdrSize = f.HdrSize
+	}
+	if f.HdrOffSize >= 1 && f.HdrOffSize <= 4 {
+		hdrOff = f.HdrOffSize
+	}
+	header := []byte{1, 0, byte(hdrSize), byte(hdrOff)}
+	for len(header) < hdrSize {
+		header = append(header, 0xA5)
+	}
 	name := Index([][]byte{[]byte("Probe")}, 0)
 	var strs []byte
 	if f.CID {
@@ -288,25 +301,36 @@ func Assemble(f *Font) []byte {
 	}
 
 	var top []byte
+	entry := func(op []byte, vals ...int) []byte {
+		var e []byte
+		for _, v := range vals {
+			e = append(e, DictInt5(v)...)
+		}
+		return append(e, op...)
+	}
+	var entries [][]byte
 	if f.CID {
 		top = append(top, DictInt(391)...)
 		top = append(top, DictInt(392)...)
 		top = append(top, DictInt(0)...)
 		top = append(top, 12, 30)
-		top = append(top, DictInt5(charsetOff)...)
-		top = append(top, 15)
-		top = append(top, DictInt5(fdselOff)...)
-		top = append(top, 12, 37)
-		top = append(top, DictInt5(fdarrayOff)...)
-		top = append(top, 12, 36)
-		top = append(top, DictInt5(csOff)...)
-		top = append(top, 17)
+		entries = [][]byte{entry([]byte{15}, charsetOff), entry([]byte{12, 37}, fdselOff),
+			entry([]byte{12, 36}, fdarrayOff), entry([]byte{17}, csOff)}
 	} else {
-		top = append(top, DictInt5(csOff)...)
-		top = append(top, 17)
-		top = append(top, DictInt5(len(privs[0]))...)
-		top = append(top, DictInt5(privOff[0])...)
-		top = append(top, 18)
+		entries = [][]byte{entry([]byte{17}, csOff), entry([]byte{18}, len(privs[0]), privOff[0])}
+	}
+	// the operators of a DICT may come in any order: rotate and optionally reverse
+	k := len(entries)
+	perm := f.TopPerm
+	if perm < 0 {
+		perm = -perm
+	}
+	for i := 0; i < k; i++ {
+		idx := (i + perm) % k
+		if (perm/k)%2 == 1 {
+			idx = (k - 1 - i + perm) % k
+		}
+		top = append(top, entries[idx]...)
 	}
 	if len(top) != topLen {
 		panic("top dict size mismatch")
